@@ -119,15 +119,19 @@ def case_size(case: Any) -> int:
 
 
 def innermost_liquid_frame(exc: BaseException) -> str:
-    """`file:function` of the innermost liquid2 frame of exc's traceback."""
+    """`file:function<caller file:function` of the innermost liquid2 frames."""
     tb = exc.__traceback__
-    best = "?"
+    frames: list[str] = []
     while tb is not None:
         fn = tb.tb_frame.f_code.co_filename
         if "/liquid2/" in fn:
-            best = f"{fn.split('/liquid2/', 1)[1]}:{tb.tb_frame.f_code.co_name}"
+            frames.append(f"{fn.split('/liquid2/', 1)[1]}:{tb.tb_frame.f_code.co_name}")
         tb = tb.tb_next
-    return best
+    if not frames:
+        return "?"
+    if len(frames) == 1:
+        return frames[-1]
+    return f"{frames[-1]}<{frames[-2]}"
 
 
 def exc_bucket(exc: BaseException) -> str:
@@ -180,7 +184,8 @@ def triage_known(
                     f"KNOWN-FINDING: property={prop.id} {entry['id']}: "
                     f"{entry['description']}"
                 )
-        elif status == "fixed" and still:
+        elif status == "fixed" and buckets:
+            # a fixed entry suppresses nothing: any failure of its witness is a regression
             regress.append(entry)
     return active, frozenset(disabled), lines, regress
 
